@@ -874,10 +874,19 @@ Theorem negbinomial_p0_point_mass :
   forall (lgam : R -> R) (r : R), 0 < r -> lgam 1 = 0 -> exists d : nb_d, nb_new lgam r 0 = Some d /\ nb_logpdf lgam d 0 = Val (Fin 0) /\ (forall k : Z, (0 < k)%Z -> nb_logpdf lgam d (IZR k) = Val NInf) /\ (forall k : Z, (k < 0)%Z -> nb_logpdf lgam d (IZR k) = Val NInf) /\ (forall x : R, is_intb x = false -> nb_logpdf lgam d x = Val NInf).
 Proof. exact ProofsPoint.negbinomial_p0_point_mass. Qed.
 
-(* p = 1 is accepted by the constructor although p^k (1-p)^r is identically 0 then: no mass anywhere (finding) *)
-Theorem negbinomial_p1_no_mass :
-  forall (lgam : R -> R) (r : R), 0 < r -> exists d : nb_d, nb_new lgam r 1 = Some d /\ (forall k : Z, (0 <= k)%Z -> nb_logpdf lgam d (IZR k) = Val NInf).
-Proof. exact ProofsPoint.negbinomial_p1_no_mass. Qed.
+(* p = 1 (where p^k (1-p)^r is identically 0) is rejected: the constructor accepts exactly r > 0, 0 <= p < 1 *)
+Theorem negbinomial_p1_rejected :
+  forall (lgam : R -> R) (r : R), nb_new lgam r 1 = None.
+Proof. exact ProofsPoint.negbinomial_p1_rejected. Qed.
+
+Theorem negbinomial_ctor_domain :
+  forall (lgam : R -> R) (r p : R), (exists d : nb_d, nb_new lgam r p = Some d) <-> negbinomial_valid r p.
+Proof. exact ProofsPoint.negbinomial_ctor_domain. Qed.
+
+(* non-vacuity: both sides of the boundary: (5/2, 0) and (5/2, 1/2) are inside the domain, (5/2, 1) is not *)
+Example negbinomial_ctor_domain_instance :
+  negbinomial_valid (5 / 2) 0 /\ negbinomial_valid (5 / 2) (1 / 2) /\ ~ negbinomial_valid (5 / 2) 1.
+Proof. unfold negbinomial_valid. lra. Qed.
 
 Theorem geometric_p1_point_mass :
   exists d : geo_d, geo_new 1 = Some d /\ geo_logpdf d 0 = Val (Fin 0) /\ (forall k : Z, (0 < k)%Z -> geo_logpdf d (IZR k) = Val NInf) /\ (forall k : Z, (k < 0)%Z -> geo_logpdf d (IZR k) = Val NInf).
